@@ -92,3 +92,48 @@ package updater
 //@   loop 0 invariant forall k int :: soff(res.Versions) <= k && k < soff(res.Versions) + rangeindex + 1 ==> !elems(res.Versions)[k].CurrentRelease
 //@   loop 1 invariant rangeindex >= -1 && rangeindex < len(res.Versions) && res.Versions == old(res.Versions) && elems(res.Versions) == old(elems(res.Versions))
 //@   loop 1 invariant currentRelease ==> (forall k int :: soff(res.Versions) <= k && k < soff(res.Versions) + len(res.Versions) ==> !elems(res.Versions)[k].CurrentRelease)
+
+// C17: a download goes to a pending file; it replaces the stored file only after the whole
+// body was written and, where a verified hash is available, compared (and not rejected).
+//@ func (*ResourceRegistry).fetchFile
+//@   nopanic off
+//@   modifies *
+//@   ghost var tf *renameio.PendingFile = nil
+//@   ghost var vh *lhash.LabeledHash = nil
+//@   ghost var cmp bool = false
+//@   ghost var eq bool = false
+//@   ghost var copied int64 = 0
+//@   ghost var copyErr error = nil
+//@   ghost var want int64 = 0
+//@   at after (*ResourceRegistry).fetchAndVerifySigFile ghost vh = ret0
+//@   at after TempFile ghost tf = ret0
+//@   at after io.Copy ghost copied = ret0
+//@   at after io.Copy ghost copyErr = ret1
+//@   at after (*LabeledHash).EqualRaw ghost cmp = true
+//@   at after (*LabeledHash).EqualRaw ghost eq = ret0
+//@   at after io.Copy ghost want = resp.ContentLength
+//@   at call (*PendingFile).CloseAtomicallyReplace assert tf != nil && arg0 == tf
+//@   at call (*PendingFile).CloseAtomicallyReplace assert copyErr == nil && copied == want
+//@   at call (*PendingFile).CloseAtomicallyReplace assert vh != nil ==> cmp
+//@   at call (*PendingFile).CloseAtomicallyReplace assert cmp && !eq ==> rv.resource.VerificationOptions.DownloadPolicy != SignaturePolicyRequire
+
+// C17: an archive is extracted below a temporary directory which is then renamed to the destination.
+//@ func (*Resource).unpackZipArchive
+//@   nopanic off
+//@   modifies *
+//@   ghost var tmp string = ""
+//@   ghost var dest string = ""
+//@   ghost var j string = ""
+//@   loop 0 invariant tmp == tmpDir && dest == destDir
+//@   at after strings.TrimSuffix#0 ghost dest = ret0
+//@   at after filepath.Join#0 ghost tmp = ret0
+//@   at call filepath.Join#1 assert len(arg0) == 2 && arg0[0] == tmp
+//@   at after filepath.Join#1 ghost j = ret0
+//@   at call copyFromZipArchive assert arg1 == j
+//@   at call os.Rename assert arg0 == tmp && arg1 == dest
+
+//@ func copyFromZipArchive
+//@   nopanic off
+//@   modifies *
+//@   at call os.OpenFile assert arg0 == dstPath
+//@   at call os.Mkdir assert arg0 == dstPath
